@@ -68,8 +68,41 @@ fn marker(i: usize, r: &ResSpec) -> String {
     format!("/*{}#{}*/", r.name, i)
 }
 
+/// The kind a definition's text denotes, decided by the harness (the reference store model must not
+/// depend on the library's own reading of the text).
+fn kind_of_text(k: &str) -> ResourceType {
+    match k {
+        "template" => ResourceType::Template,
+        "text/css" => ResourceType::Mime(MimeType::TextCss),
+        "image/gif" => ResourceType::Mime(MimeType::ImageGif),
+        "text/html" => ResourceType::Mime(MimeType::TextHtml),
+        "application/javascript" => ResourceType::Mime(MimeType::ApplicationJavascript),
+        "application/json" => ResourceType::Mime(MimeType::ApplicationJson),
+        "audio/mp3" => ResourceType::Mime(MimeType::AudioMp3),
+        "video/mp4" => ResourceType::Mime(MimeType::VideoMp4),
+        "image/png" => ResourceType::Mime(MimeType::ImagePng),
+        "text/plain" => ResourceType::Mime(MimeType::TextPlain),
+        "text/xml" => ResourceType::Mime(MimeType::TextXml),
+        "fn/javascript" => ResourceType::Mime(MimeType::FnJavascript),
+        _ => ResourceType::Mime(MimeType::Unknown),
+    }
+}
+
+/// The resource as a user supplies it: a JSON definition read through the library's deserializer.
+fn to_engine_resource(i: usize, r: &ResSpec) -> Resource {
+    let kind = if r.kind == "template" { serde_json::json!("template") } else { serde_json::json!({ "mime": r.kind }) };
+    let def = serde_json::json!({
+        "name": r.name,
+        "aliases": r.aliases,
+        "kind": kind,
+        "content": if r.valid_content { gen::b64(&marker(i, r)) } else { "!!!not-base64".to_string() },
+        "permission": r.permission,
+    });
+    serde_json::from_value::<Resource>(def).unwrap_or_else(|_| to_resource(i, r))
+}
+
 fn to_resource(i: usize, r: &ResSpec) -> Resource {
-    let kind = if r.kind == "template" { ResourceType::Template } else { ResourceType::Mime(MimeType::from(r.kind.as_str())) };
+    let kind = kind_of_text(&r.kind);
     Resource {
         name: r.name.clone(),
         aliases: r.aliases.clone(),
@@ -81,12 +114,14 @@ fn to_resource(i: usize, r: &ResSpec) -> Resource {
 }
 
 pub fn check_case(c: &RedirCase, obs: &mut Obs) -> Result<(), String> {
+    // `all` feeds the reference model, `given` is what the engine receives (JSON definitions)
     let all: Vec<Resource> = c.resources.iter().enumerate().map(|(i, r)| to_resource(i, r)).collect();
+    let given: Vec<Resource> = c.resources.iter().enumerate().map(|(i, r)| to_engine_resource(i, r)).collect();
     let k0 = c.initial.min(all.len());
-    let mut engine = build_engine(&c.rules, false, false, &all[..k0]);
+    let mut engine = build_engine(&c.rules, false, false, &given[..k0]);
     check_with(c, obs, &|q| Verdict::of(&engine.check_network_request(q)), "", &all[..k0])?;
     for k in k0..all.len() {
-        let _ = engine.add_resource(all[k].clone());
+        let _ = engine.add_resource(given[k].clone());
         obs.label("add_resource-then-recheck");
         check_with(c, obs, &|q| Verdict::of(&engine.check_network_request(q)), "", &all[..=k])?;
     }
@@ -95,7 +130,7 @@ pub fn check_case(c: &RedirCase, obs: &mut Obs) -> Result<(), String> {
     if let Some(b) = incremental_blocker(&c.rules, std_opts(), &[], &mut refused) {
         // the store model: first add wins, invalid resources are rejected
         let mut store = adblock::resources::ResourceStorage::default();
-        for r in &all {
+        for r in &given {
             let _ = store.add_resource(r.clone());
         }
         obs.label("incremental-blocker");
@@ -225,7 +260,7 @@ pub fn decode(t: &mut Tape) -> RedirCase {
 }
 
 pub fn check(ctx: &mut Ctx) {
-    ctx.rule = "1-8 redirect / redirect-rule / @@..$redirect[-rule] rules on 11 overlapping patterns with priority suffixes (none, 0, equal, negative, +n, i32::MIN, i32::MAX, overflowing, :abc, trailing ':', double ':'), optional extra options, plus plain/exception/important rules; resource stores of 0-6 resources (names and aliases from a pool of 10 so clashes happen, all 12 mime types + template, permission 0 / non-zero, invalid base64); 1-5 requests; in half of the cases only a prefix of the store is loaded at first and the remaining resources are added one at a time with add_resource(), all requests being re-checked after each; finally the same rules are added one at a time to a Blocker (add_filter) and checked against the full store. Oracle: candidates = matching non-exception redirect rules (per-rule matcher) whose resource name is not named by a matching redirect exception; winners = maximal priority; acceptable = data URL of each winner under an independent resource-store model (first add wins, validation, redirectable kind, permission 0). Non-trivial = >= 2 candidates with different priorities, or an exception present beside >= 2 candidates.".into();
+    ctx.rule = "1-8 redirect / redirect-rule / @@..$redirect[-rule] rules on 11 overlapping patterns with priority suffixes (none, 0, equal, negative, +n, i32::MIN, i32::MAX, overflowing, :abc, trailing ':', double ':'), optional extra options, plus plain/exception/important rules; resource stores of 0-6 resources given to the engine as JSON definitions read by the library's deserializer (names and aliases from a pool of 10 so clashes happen, all 12 mime types + template, permission 0 / non-zero, invalid base64); 1-5 requests; in half of the cases only a prefix of the store is loaded at first and the remaining resources are added one at a time with add_resource(), all requests being re-checked after each; finally the same rules are added one at a time to a Blocker (add_filter) and checked against the full store. Oracle: candidates = matching non-exception redirect rules (per-rule matcher) whose resource name is not named by a matching redirect exception; winners = maximal priority; acceptable = data URL of each winner under an independent resource-store model (first add wins, validation, redirectable kind, permission 0). Non-trivial = >= 2 candidates with different priorities, or an exception present beside >= 2 candidates.".into();
     ctx.assumptions = vec!["which rules match is decided by NetworkFilter::matches (C02/C03 check that); priority ties leave the choice free".into()];
     let n = ctx.tier.pick(600_000, 5_000_000);
     drive(ctx, "redirect", n, 300, &decode, &check_case);
